@@ -955,7 +955,17 @@ func (c *Conn) handleBdat(arg string) {
 		return
 	}
 
+	// ParseUint instead of Atoi so we will not accept negative values.
+	size, err := strconv.ParseUint(args[0], 10, 32)
+	if err != nil {
+		c.writeResponse(501, EnhancedCode{5, 5, 4}, "Malformed size argument")
+		return
+	}
+
 	if !c.fromReceived || len(c.recipients) == 0 {
+		// RFC 3030: the chunk of a refused BDAT must be discarded, it
+		// must not be interpreted as commands.
+		io.Copy(ioutil.Discard, io.LimitReader(c.text.R, int64(size)))
 		c.writeResponse(502, EnhancedCode{5, 5, 1}, "Missing RCPT TO command.")
 		return
 	}
@@ -963,17 +973,11 @@ func (c *Conn) handleBdat(arg string) {
 	last := false
 	if len(args) == 2 {
 		if !strings.EqualFold(args[1], "LAST") {
+			io.Copy(ioutil.Discard, io.LimitReader(c.text.R, int64(size)))
 			c.writeResponse(501, EnhancedCode{5, 5, 4}, "Unknown BDAT argument")
 			return
 		}
 		last = true
-	}
-
-	// ParseUint instead of Atoi so we will not accept negative values.
-	size, err := strconv.ParseUint(args[0], 10, 32)
-	if err != nil {
-		c.writeResponse(501, EnhancedCode{5, 5, 4}, "Malformed size argument")
-		return
 	}
 
 	if c.server.MaxMessageBytes != 0 && c.bytesReceived+int64(size) > c.server.MaxMessageBytes {
